@@ -54,7 +54,7 @@ ASSUMPTIONS = [
     "quantities whose definition is unstable at the input (angles of near-zero rays, Sholl radii "
     "on a node distance) are not compared",
 ]
-REQUIRED = ["twins_measured_under_custom_column_names", "densely_sampled_long_trees", "sholl_objects_read_after_an_in_place_move", "twins_measured_from_inside_a_traversal", "pairs", "rotations", "translations", "scalings", "renumberings", "library_motions",
+REQUIRED = ["twins_measured_under_custom_column_names", "sholl_of_a_file_name", "densely_sampled_long_trees", "sholl_objects_read_after_an_in_place_move", "twins_measured_from_inside_a_traversal", "pairs", "rotations", "translations", "scalings", "renumberings", "library_motions",
             "length_compared", "multisets_compared", "per_node_compared", "sholl_fixed_radii_compared",
             "sholl_steps_compared", "angles_compared", "orders_compared", "volume_compared",
             "small_extent_scalings", "file_sourced_trees", "tap_sholl_get",
@@ -526,6 +526,38 @@ def _exec(ctx, case):
                                f"{before.tolist()} before the neuron was translated in place, "
                                f"{after.tolist()} read from the same object afterwards, "
                                f"{fresh.tolist()} from a new object")
+    if case["mseed"] % 7 == 3 and n >= 3 and rmax > 0:
+        # the profile of a neuron given as a file name (the constructor reads it) equals the
+        # profile of the same neuron given as a tree, wherever the neuron lies
+        import os
+        import tempfile
+
+        from swcgeom.analysis import Sholl
+
+        d_ = tempfile.mkdtemp(prefix="rv-c11-")
+        try:
+            f_ = os.path.join(d_, "moved.swc")
+            tree2.to_swc(f_)
+            from swcgeom.core import Tree as _T2
+
+            back = _T2.from_swc(f_)
+            dist = np.unique(np.linalg.norm((back.xyz() - back.xyz()[0]).astype(np.float64), axis=1))
+            gaps = np.diff(dist)
+            radii = np.sort([float(dist[g] + gaps[g] / 2) for g in np.argsort(gaps)[::-1][:6]
+                             if gaps[g] > 1e-3 * dist.max()])
+            if len(radii):
+                by_path = np.array(Sholl(f_).get(steps=radii))
+                by_tree = np.array(Sholl(back).get(steps=radii))
+                ctx.count("sholl_of_a_file_name")
+                if not np.array_equal(by_path, by_tree):
+                    raise Mismatch("sholl-of-file-name",
+                                   f"Sholl('<file>') of the moved neuron gives {by_path.tolist()} at "
+                                   f"radii {np.round(radii, 3).tolist()}, Sholl(tree) of the same "
+                                   f"file gives {by_tree.tolist()}")
+        finally:
+            import shutil
+
+            shutil.rmtree(d_, ignore_errors=True)
     A = measure(tree, refA, radiiA, case["steps"], nodes, want_volume, soma_ok)
     if case["mseed"] % 6 == 4 and n <= 120:
         # the moved neuron measured by user code running inside a traversal of the original
